@@ -1022,7 +1022,11 @@ func hPoolGet(m *Machine, fr *frame, fn *ssa.Function, a []Value) Value {
 	// nondeterministic: New() (alternative 0) or any pooled object
 	k := 0
 	if n > 0 {
-		k = m.choose("pool", n+1, nil)
+		if m.poolMode == 1 {
+			k = n // LIFO cache: the most recently Put object
+		} else {
+			k = m.choose("pool", n+1, nil)
+		}
 	}
 	if k > 0 {
 		it := s.items[k-1]
@@ -1047,7 +1051,7 @@ func hPoolPut(m *Machine, fr *frame, fn *ssa.Function, a []Value) Value {
 	if i, ok := a[1].(Iface); ok && i.T == nil {
 		return nil
 	}
-	if len(s.items) < 2 { // keep the nondeterminism small: the pool may drop objects at any time
+	if len(s.items) < 2 || m.poolMode == 1 { // keep the nondeterminism small: the pool may drop objects at any time
 		s.items = append(s.items, a[1])
 	}
 	return nil
